@@ -260,6 +260,9 @@ def gen_opts(rng):
     return opts
 
 
+UNSAFE_TARGETS = bool(os.environ.get("PFB_C09_UNSAFE_TARGET"))   # on by default once the Lean model covers it
+
+
 def gen_tree(rng, tool, nfiles=None):
     """Returns (tree, args)."""
     tree, args = {}, []
@@ -293,6 +296,15 @@ def gen_tree(rng, tool, nfiles=None):
             args.append(ln)
             if rng.random() < 0.2 and tn not in args:
                 args.insert(rng.randint(0, len(args)), tn)
+        elif r < 0.66 and UNSAFE_TARGETS:
+            # a symlink with an ordinary name whose TARGET lives under a directory name that `Filename` refuses
+            # (a blank, parentheses, ...): following it cannot be done safely
+            hd = rng.choice(["My Project", "a (copy)", "q&a", "x;y"]) + str(i)
+            tree[hd] = ["dir"]
+            tree[hd + "/t.py"] = ["file", newc(rng.choice(["C", "C", "U", "Cn"]))]
+            ln = "h%d.py" % i
+            tree[ln] = ["link", hd + "/t.py"]
+            args.append(ln)
         elif r < 0.70:
             nm = "g%d.py" % i
             tree[nm] = ["link", "nowhere%d.py" % i]
